@@ -24,7 +24,8 @@ Inductive case :=
 | KeyEq (r1 l1 r2 l2 : addr) (o_eq : bool) (o_fallback : bool) (o_wild_eq_l2 : bool)
 (* Server.NewConn / Conn.Close / tick sequences on a live server: observed connection identities *)
 | TableRun (lst : addr) (ops : list (ev (list Z) * Z))   (* event, observed: id of the returned connection (creation
-                                                            order), -1 = error, -2 = nothing to observe *)
+                                                            order), -1 = error, -2 = nothing to observe (datagram
+                                                            answered), -3 = datagram reported as dropped *)
            (o_newconns : Z)
 (* scripted listener for tcp/dtls Serve: (error class, ctx cancelled before the call) ; observed:
    accept calls until Serve returned (-1 = did not return), connections served, errors reported *)
@@ -118,7 +119,7 @@ Fixpoint table_agrees (s : sstate cstate) (ops : list (ev (list Z) * Z)) (news :
       | SPanic => None
       | SOk s1 outs =>
           let n := blen (filter (fun x => match x with SNew _ _ => true | _ => false end) outs) in
-          let res := fold_left (fun acc x => match x with SConn _ id => id | SErrNewConn _ => -1 | _ => acc end) outs (-2) in
+          let res := fold_left (fun acc x => match x with SConn _ id => id | SErrNewConn _ => -1 | SErrGetConn _ => -3 | _ => acc end) outs (-2) in
           if res =? o then table_agrees s1 r (news + n) else None
       end
   end.
